@@ -321,12 +321,22 @@ class Analyzer(object):
         if isinstance(st, ast.If):
             self.expr_effects(st.test, st)
             before = dict(self.env)
+            alias_before = dict(self.alias_param)
             self.block(st.body)
             a = self.env
+            alias_a = self.alias_param
             self.env = dict(before)
+            self.alias_param = dict(alias_before)
             self.block(st.orelse)
             b = self.env
+            alias_b = self.alias_param
             self.env = {k: max(a.get(k, F), b.get(k, F)) for k in set(a) | set(b)}
+            # may-alias: a name that still stands for the caller's object on one branch still may do so after the join
+            # (`if cond: x = list(x)` leaves x the caller's list when cond is false)
+            merged = dict(alias_a)
+            for k, v in alias_b.items():
+                merged.setdefault(k, v)
+            self.alias_param = merged
             return
         if isinstance(st, ast.Try):
             self.block(st.body)
